@@ -63,6 +63,15 @@ theorem roundtrip_ss_via_cells_io (clusterAt : Nat → Nat) (cl : Str → Nat) (
     obtain ⟨c, hc, e⟩ := encodeFrom_text_mem (ssDelta legacy) cs {} g hgm
     exact hg c hc r (e ▸ hr)
 
+/-- **The reader `ParseStyledString` builds in the current source is the whole-string reader** (regenerated on this run:
+    `ansi.NewParser` gets `bufio.NewReaderSize(strings.NewReader(s), len(s))`): the model that follows the source
+    (`parseStyledSrc`, which the driver runs on the exact strings of the `decb` stream) is `parseStyledIO`, the function the
+    theorems above are about.  With the pre-F122 shape it would be `parseStyledIOChunked 4096`, for which they are false. -/
+theorem reader_recognised (clusterAt : Nat → Nat) (bs : List Nat) :
+    parseStyledSrc clusterAt bs = some (parseStyledIO clusterAt bs) := by
+  unfold parseStyledSrc
+  rw [if_pos (by decide)]
+
 /-! ### Before the F122 repair: reads of the buffer size -/
 
 /-- Up to the buffer size the old reader was the new one: a string that fits the buffer arrives in one read. -/
